@@ -132,10 +132,15 @@ impl BuiltInFunction {
 			"log10" => Self::Log10,
 			"base" => Self::Base,
 			"sample" => Self::Sample,
+			"mean" => Self::Mean,
 			"not" => Self::Not,
 			"conjugate" => Self::Conjugate,
 			"real" => Self::Real,
 			"imag" => Self::Imag,
+			"arg" => Self::Arg,
+			"floor" => Self::Floor,
+			"ceil" => Self::Ceil,
+			"round" => Self::Round,
 			"fibonacci" => Self::Fibonacci,
 			_ => return Err(FendError::DeserializationError),
 		})
